@@ -557,6 +557,11 @@ type Stats struct {
 	GoroutineMode bool
 	Anomaly       string
 	Adopted       int // largest number of adopted goroutines in one execution
+	// AllInterleavings is set when the exploration was not limited by the preemption bound: every interleaving of
+	// the scenario (at scheduling-point granularity) was executed. MaxPreemptions is the largest number of preemptions
+	// in any execution.
+	AllInterleavings bool
+	MaxPreemptions   int
 }
 
 // Violation is a finding with its schedule.
@@ -571,12 +576,21 @@ type Violation struct {
 // Explore enumerates every execution with at most maxBound preemptions (iterating the bound from 0), checking each.
 // It stops at the first bound that produces a violation. outcome (optional) classifies executions for vacuity reporting.
 func Explore(sc Scenario, maxBound int, deadline time.Time, outcome func(x *Exec) string) (Stats, []Violation, error) {
+	return exploreModes(sc, maxBound, deadline, outcome, false)
+}
+
+// ExploreAll enumerates every interleaving in one depth-first pass without a preemption bound.
+func ExploreAll(sc Scenario, deadline time.Time, outcome func(x *Exec) string) (Stats, []Violation, error) {
+	return exploreModes(sc, 1<<30, deadline, outcome, true)
+}
+
+func exploreModes(sc Scenario, maxBound int, deadline time.Time, outcome func(x *Exec) string, single bool) (Stats, []Violation, error) {
 	if os.Getenv("VERIF_SCHED_MODE") == "goroutine" {
-		return explore(sc, maxBound, deadline, outcome, true, "forced")
+		return explore(sc, maxBound, deadline, outcome, true, "forced", single)
 	}
-	st, viols, err := explore(sc, maxBound, deadline, outcome, false, "")
+	st, viols, err := explore(sc, maxBound, deadline, outcome, false, "", single)
 	if an, ok := err.(*errAnomaly); ok {
-		return explore(sc, maxBound, deadline, outcome, true, an.msg)
+		return explore(sc, maxBound, deadline, outcome, true, an.msg, single)
 	}
 	return st, viols, err
 }
@@ -585,7 +599,7 @@ type errAnomaly struct{ msg string }
 
 func (e *errAnomaly) Error() string { return "detached goroutine activity: " + e.msg }
 
-func explore(sc Scenario, maxBound int, deadline time.Time, outcome func(x *Exec) string, perG bool, anomaly string) (Stats, []Violation, error) {
+func explore(sc Scenario, maxBound int, deadline time.Time, outcome func(x *Exec) string, perG bool, anomaly string, single bool) (Stats, []Violation, error) {
 	st := Stats{BoundCompleted: -1, Outcomes: map[string]int{}, GoroutineMode: perG, Anomaly: anomaly}
 	var viols []Violation
 	seenKey := map[string]bool{}
@@ -606,8 +620,13 @@ func explore(sc Scenario, maxBound int, deadline time.Time, outcome func(x *Exec
 			return st, nil, fmt.Errorf("default schedule is not deterministic:\n%s\n%s", first.Schedule(), x.Schedule())
 		}
 	}
-	for bound := 0; bound <= maxBound; bound++ {
+	firstBound := 0
+	if single {
+		firstBound = maxBound
+	}
+	for bound := firstBound; bound <= maxBound; bound++ {
 		complete := true
+		newHere := 0
 		var rec func(prefix []int, expect [][]int) error
 		rec = func(prefix []int, expect [][]int) error {
 			if time.Now().After(deadline) {
@@ -628,8 +647,12 @@ func explore(sc Scenario, maxBound int, deadline time.Time, outcome func(x *Exec
 			}
 			// Count only executions that are new at this bound (those with exactly `bound` preemptions),
 			// but explore children from all of them.
-			if x.Preemptions == bound || bound == 0 {
+			if x.Preemptions > st.MaxPreemptions {
+				st.MaxPreemptions = x.Preemptions
+			}
+			if x.Preemptions == bound || bound == 0 || single {
 				st.Executions++
+				newHere++
 				if len(x.Points) > st.MaxPoints {
 					st.MaxPoints = len(x.Points)
 				}
@@ -691,6 +714,16 @@ func explore(sc Scenario, maxBound int, deadline time.Time, outcome func(x *Exec
 			break
 		}
 		st.BoundCompleted = bound
+		if single {
+			st.BoundCompleted = st.MaxPreemptions
+			st.AllInterleavings = true
+		}
+		if newHere == 0 && bound > 0 {
+			// No execution has exactly this many preemptions, hence none has more.
+			st.BoundCompleted = st.MaxPreemptions
+			st.AllInterleavings = true
+			break
+		}
 		if len(viols) > 0 {
 			break
 		}
